@@ -600,25 +600,31 @@ class FileCache(CacheMixin):
             return None
         state.metadata["status"] = "ready"
 
-        if not self.store_metadata(state.metadata):
-            return False
-
         t = state_types_registry().get(state.type_identifier)
         path = self.to_path(
             state.query, prefix="data_", extension=t.default_extension()
         )
-        with open(path, "wb") as f:
-            try:
-                b, mime = t.as_bytes(state.data)
-                f.write(self.encode(b))
-            except NotImplementedError:
-                return False
-        return True
+        try:
+            b, mime = t.as_bytes(state.data)
+        except NotImplementedError:
+            return False
+        # The complete data file is in place before the metadata declares it ready
+        self._write_atomically(path, self.encode(b))
+        return self.store_metadata(state.metadata)
+
+    def _write_atomically(self, path, b):
+        "Write to a temporary file and rename it, so that a reader never sees a partial file"
+        tmp = f"{path}.tmp{os.getpid()}"
+        with open(tmp, "wb") as f:
+            f.write(b)
+        os.replace(tmp, path)
 
     def store_metadata(self, metadata):
         try:
-            with open(self.to_path(metadata["query"]), "wb") as f:
-                f.write(self.encode_metadata(json.dumps(metadata)))
+            self._write_atomically(
+                self.to_path(metadata["query"]),
+                self.encode_metadata(json.dumps(metadata)),
+            )
         except:
             logging.exception(f"Cache writing error: {metadata['query']}")
             return False
